@@ -54,6 +54,7 @@ fn scenario(seed: u64, index: u64) -> DebugScenario {
         script,
         transport,
         sep_seed: rng.next_u64() | 1,
+        input: Vec::new(),
     }
 }
 
@@ -115,6 +116,11 @@ impl Check for C14 {
         report.nontrivial = !scn.script.is_empty();
         let has_sudo = scn.script.iter().any(|i| matches!(i.cmd, Cmd::Sudo));
         if has_sudo {
+            return report;
+        }
+        if report.counters.contains_key("probe:input_trap_executed_in_session") {
+            // The program read standard input (a `move` planted GETC/IN): program and debugger
+            // share that stream, so deliveries through stdin legitimately differ
             return report;
         }
 
